@@ -134,3 +134,130 @@ Lemma apply_env_save_load S V orc c0 env c :
   reachable S c /\ V orc (cget S c) = true /\ load S V orc (save S c) = Some c.
 Proof. intros CO R0 H. unfold apply_env in H. destruct (apply_json_reachable _ _ _ _ _ _ R0 H) as [R Vv].
   split; [exact R|]. split; [exact Vv|]. now apply reachable_save_load. Qed.
+
+(* ================================================================== *)
+(* what the model lets a harness observe                               *)
+(* ================================================================== *)
+(* members read directly from the Config struct: any list of member names *)
+Definition direct_of (S : schema) (c : cfg) (dn : list string) : json := map (fun n => (n, cget S c n)) dn.
+(* ToJSON(LoadJSON(ToJSON(cfg))) and the reloaded struct are those of cfg *)
+Definition rt_b (S : schema) (V : validator) (orc : string -> bool) (c : cfg) : bool :=
+  match load S V orc (save S c) with Some c' => cfg_eqb c' c | None => false end.
+(* a member named like a secret shows something else than the marker in the displayable form *)
+Definition leak_b (S : schema) (c : cfg) : bool := negb (raw_hides (SDoc (display S c))).
+
+Definition model_obs (S : schema) (V : validator) (m : mode) (j : json) (dn : list string) : obs :=
+  match model_run S V m j with
+  | None => ObsErr
+  | Some c => ObsOk (save S c) (direct_of S c dn) (V (oracle_of j) (cget S c)) (rt_b S V (oracle_of j) c) (leak_b S c)
+  end.
+
+(* saving and loading the default configuration gives it back (checked on every generated table: defaults_stable_tables) *)
+Definition default_roundtrip (S : schema) (V : validator) (orc : string -> bool) : Prop :=
+  V orc (cget S (defaults S)) = true -> load S V orc (save S (defaults S)) = Some (defaults S).
+
+(* whatever the mode: a configuration the model accepts validates and survives save + load *)
+Lemma model_run_valid_roundtrip S V m j c :
+  schema_coherentb S = true -> default_roundtrip S V (oracle_of j) -> model_run S V m j = Some c ->
+  V (oracle_of j) (cget S c) = true /\ load S V (oracle_of j) (save S c) = Some c.
+Proof. intros CO DS H. unfold model_run in H. cbv zeta in H.
+  destruct (jhas "=notobject" j); [discriminate|].
+  destruct m as [| |env].
+  - exact (load_save_load_l S V _ j c CO H).
+  - destruct (V (oracle_of j) (cget S (defaults S))) eqn:Vd; [|discriminate]. inversion H; subst c. split; [exact Vd|]. exact (DS Vd).
+  - destruct (load S V (oracle_of j) j) as [c0|] eqn:L; [|discriminate].
+    destruct (load_reachable _ _ _ _ _ L) as [R0 _].
+    destruct (apply_env_save_load _ _ _ _ _ _ CO R0 H) as [_ [A B]]. auto. Qed.
+
+Lemma leak_b_model S c : schema_coherentb S = true -> leak_b S c = false.
+Proof. intros CO. unfold leak_b, raw_hides. apply negb_false_iff. apply forallb_forall. intros [n v] I.
+  destruct (secret_name n) eqn:SN; [|reflexivity]. simpl.
+  rewrite (cif_of_disp S (fun _ _ => true) (fun _ => true) CO c n v I SN). apply val_eqb_refl. Qed.
+
+(* ================================================================== *)
+(* code 13: the member the harness observed                            *)
+(* ================================================================== *)
+Definition member_default (f : field) : val := match fsave f with SOmitIfDefault d => d | _ => zero_of (fkind f) end.
+
+Lemma obs_member_jval f saved direct :
+  obs_member f saved direct =
+  match jget (fname f) direct with
+  | Some d => d
+  | None => match jval (fname f) saved with VNone => member_default f | s => s end end.
+Proof. unfold obs_member, jval, jin, member_default. destruct (jget (fname f) direct); [reflexivity|].
+  destruct (jget (fname f) saved) as [[]|]; reflexivity. Qed.
+
+Lemma jval_save_in S c f : NoDup (map fname (sfields S)) -> length (sfields S) = length c -> In f (sfields S) ->
+  jval (fname f) (save S c) = sval f (cget S c (fname f)).
+Proof. intros ND LEN Hf. pose proof (jval_save _ _ ND LEN) as JS.
+  exact (cget_from_in (fun f v => jval (fname f) (save_fields (sfields S) c) = sval f v) _ _ ND JS f Hf). Qed.
+
+Lemma direct_eq_get S c d n v : direct_eq S c d = true -> jget n d = Some v -> v = cget S c n.
+Proof. unfold direct_eq. induction d as [|[k x] r IH]; simpl; [discriminate|].
+  intros H. apply andb_true_iff in H. destruct H as [H1 H2]. destruct (String.eqb_spec n k) as [->|N].
+  - intros E. inversion E; subst. symmetry. now apply val_eqb_eq.
+  - now apply IH. Qed.
+
+Lemma direct_eq_model S c dn : direct_eq S c (direct_of S c dn) = true.
+Proof. unfold direct_eq, direct_of. apply forallb_forall. intros [n v] I. apply in_map_iff in I.
+  destruct I as [n' [E _]]. inversion E; subst. apply val_eqb_refl. Qed.
+
+Lemma saved_eq_refl S sk s : saved_eq S sk s s = true.
+Proof. unfold saved_eq. apply forallb_forall. intros f _. rewrite veq_refl. apply orb_true_r. Qed.
+
+(* a setting that is the value of its member is what the harness reads back from the saved form *)
+Lemma setting_observed f jv :
+  field_ok f = true -> well_typed (fkind f) jv = true -> is_never_s (fsave f) = false -> is_groupk (fkind f) = false ->
+  jv <> VNone -> (is_boolk (fkind f) || negb (is_zero (canon_in jv))) = true ->
+  veq (fkind f) (canon_in jv) (match sval f (canon_in jv) with VNone => member_default f | s => s end) = true.
+Proof.
+  intros OK T NS NG NN NZ.
+  assert (CN : canon_in jv <> VNone) by (destruct jv; simpl; congruence).
+  assert (OM : omitted f (canon_in jv) = true -> canon_in jv = VB false /\ fkind f = KBool).
+  { unfold omitted. intros H. apply andb_true_iff in H. destruct H as [H _]. apply andb_true_iff in H. destruct H as [_ Z].
+    rewrite Z in NZ. simpl in NZ. rewrite orb_false_r in NZ. destruct (fkind f); try discriminate NZ. split; [|reflexivity].
+    destruct jv as [ | [|] | | [|? ?] | | | | ]; simpl in T, Z |- *; try discriminate; congruence. }
+  unfold field_ok in OK. apply andb_true_iff in OK. destruct OK as [_ M].
+  unfold sval, save_field, member_default.
+  destruct (fsave f) as [ | d | | | id ] eqn:ES; try discriminate NS.
+  - (* SAlways *) destruct (omitted f (canon_in jv)) eqn:O.
+    + destruct (OM eq_refl) as [E K]. rewrite E, K. reflexivity.
+    + simpl. destruct (canon_in jv) eqn:EC; try congruence; apply veq_refl.
+  - (* SOmitIfDefault *) destruct (val_eqb (canon_in jv) d) eqn:EV.
+    + apply val_eqb_eq in EV. subst d. apply veq_refl.
+    + destruct (omitted f (canon_in jv)) eqn:O.
+      * exfalso. destruct (OM eq_refl) as [_ K]. rewrite K in M. destruct (fload f); simpl in M; try discriminate M;
+        match type of M with context [match ?x with _ => _ end] => destruct x end; discriminate M.
+      * simpl. destruct (canon_in jv) eqn:EC; try congruence; apply veq_refl.
+  - (* SGroup *) exfalso. destruct (fload f) as [ | | | | | | | | | | | | | | | | | ? inner ? | ]; try discriminate M;
+    [destruct (fkind f); simpl in M, NG; discriminate | destruct inner; discriminate M].
+  - (* SCustom *) destruct (omitted f (canon_in jv)) eqn:O.
+    + destruct (OM eq_refl) as [E K]. rewrite E, K. reflexivity.
+    + simpl. destruct (canon_in jv) eqn:EC; try congruence; apply veq_refl.
+Qed.
+
+Lemma filter_none {A} (p : A -> bool) l : (forall x, In x l -> p x = false) -> filter p l = [].
+Proof. induction l as [|x r IH]; simpl; intros H; auto. rewrite (H x (or_introl eq_refl)). apply IH. intros y Hy. apply H. now right. Qed.
+Lemma filter_nil_all {A} (p : A -> bool) l : filter p l = [] -> forall x, In x l -> p x = false.
+Proof. induction l as [|x r IH]; simpl; intros H y Hy; [tauto|]. destruct (p x) eqn:E; [discriminate|].
+  destruct Hy as [<-|Hy]; auto. Qed.
+
+(* the model's loaded configuration, read back the way the harness reads it, shows every setting of a well-formed document *)
+Lemma dropped_model S V orc j c direct :
+  schema_coherentb S = true -> load S V orc j = Some c -> wf_doc S j = true -> direct_eq S c direct = true ->
+  dropped S j (save S c) direct = [].
+Proof. intros CO L WF DE. unfold dropped. apply filter_none. intros f Hf.
+  destruct (is_setting f j) eqn:IS; [|reflexivity]. simpl. apply negb_false_iff.
+  pose proof (load_faithful_l S V orc j c f CO L WF Hf IS) as FA.
+  destruct (coherent_parts S CO) as [ND [FOK _]].
+  rewrite obs_member_jval. destruct (jget (fname f) direct) as [d|] eqn:JD.
+  - rewrite (direct_eq_get _ _ _ _ _ DE JD), FA. apply veq_refl.
+  - destruct (load_reachable _ _ _ _ _ L) as [R _].
+    rewrite (jval_save_in S c f ND (reachable_length _ _ R) Hf), FA.
+    rewrite forallb_forall in FOK. unfold wf_doc in WF. rewrite forallb_forall in WF.
+    specialize (WF f Hf). apply andb_true_iff in WF. destruct WF as [_ T].
+    unfold is_setting in IS.
+    repeat (apply andb_true_iff in IS; let X := fresh "IS" in destruct IS as [IS X]).
+    apply negb_true_iff in IS. apply negb_true_iff in IS3.
+    apply setting_observed; [exact (FOK f Hf) | exact T | exact IS | exact IS3 | | exact IS1].
+    intros E. rewrite E in IS2. discriminate IS2. Qed.
